@@ -769,6 +769,7 @@ func (r *Runner) doIter(a *Action, pv *any, call func(func())) error {
 	var entries []otter.Entry[int, int]
 	// The iterator is obtained first and ranged after the clock has moved by a.Dur (usually 0): what it
 	// yields is judged at the time of ranging.
+	stop := a.D
 	late := a.Dur
 	if nv, of := SatAdd(r.now(), late); late < 0 || of || nv > math.MaxInt64-(1<<50) {
 		late = 0
@@ -792,26 +793,42 @@ func (r *Runner) doIter(a *Action, pv *any, call func(func())) error {
 		if late > 0 {
 			r.Env.Clock.Advance(late)
 		}
+		// a.D > 0: the caller leaves the loop after a.D elements
 		switch which {
 		case 0:
 			for k, v := range s2 {
 				got = append(got, kv{k, v})
+				if stop > 0 && len(got) >= stop {
+					break
+				}
 			}
 		case 1:
 			for k := range s1k {
 				got = append(got, kv{k, 0})
+				if stop > 0 && len(got) >= stop {
+					break
+				}
 			}
 		case 2:
 			for v := range s1v {
 				got = append(got, kv{0, v})
+				if stop > 0 && len(got) >= stop {
+					break
+				}
 			}
 		default:
 			for en := range se {
 				got = append(got, kv{en.Key, en.Value})
 				entries = append(entries, en)
+				if stop > 0 && len(got) >= stop {
+					break
+				}
 			}
 		}
 	})
+	if *pv == nil && !c.VerifEvictionLockFree() {
+		return r.fail(FBook, "%s(): the iteration is over (left after %d elements) but the eviction lock is still held", names[which], len(got))
+	}
 	if *pv != nil {
 		return r.fail(FPanic, "%s() panicked: %v", names[which], firstLine(fmt.Sprint(*pv)))
 	}
@@ -859,10 +876,31 @@ func (r *Runner) doIter(a *Action, pv *any, call func(func())) error {
 			}
 		}
 	}
-	if len(got) != len(want) {
+	if stop > 0 {
+		// left early: the elements seen must be distinct members of the expected set, and there must be min(stop, all) of them
+		r.St.EarlyExits++
+		wantSet := map[kv]bool{}
+		for _, w := range want {
+			wantSet[w] = true
+		}
+		for i, g := range got {
+			if !wantSet[g] {
+				return r.fail(f, "%s() left after %d elements yielded %v, which is not among %v", names[which], stop, g, want)
+			}
+			if i > 0 && got[i-1] == g {
+				return r.fail(f, "%s() left after %d elements yielded %v twice", names[which], stop, g)
+			}
+		}
+		if len(got) != min(stop, len(want)) {
+			return r.fail(f, "%s() left after %d elements yielded %d elements, %d are present", names[which], stop, len(got), len(want))
+		}
+	} else if len(got) != len(want) {
 		return r.fail(f, "%s() yields %v, model says %v", names[which], got, want)
 	}
 	for i := range got {
+		if stop > 0 {
+			break
+		}
 		if got[i] != want[i] {
 			return r.fail(f, "%s() yields %v, model says %v", names[which], got, want)
 		}
